@@ -48,6 +48,7 @@ var (
 	cWork         = simrt.RegisterCounter("op_frames_processed")
 	cSharedJobs   = simrt.RegisterCounter("op_shared_readonly_frames")
 	cMarshalArena = simrt.RegisterCounter("op_marshal_and_mic_on_frames_over_the_arena")
+	cOtherCID     = simrt.RegisterCounter("op_reuse_decode_command_then_another_cid")
 	cRegEdge      = simrt.RegisterCounter("op_registration_size_0_or_refused_cid")
 	cJoinReadonly = simrt.RegisterCounter("op_join_family_validate_marshal_readonly")
 	cCryptoOps    = simrt.RegisterCounter("op_exported_crypto_on_arena")
